@@ -1,8 +1,22 @@
 import PysnarkModel.Lemmas.InvVal
+import PysnarkModel.Lemmas.InvNest
 /-!
-# Programs: every run of a program of the fragment keeps the tracer invariant and the coherence of
-all register values (`run_inv`)
+# Programs: every run keeps the tracer invariant and the coherence of all register values
+
+First part (historical, kept because other files refer to it): `run_inv`, for `Fragment` programs
+(guarded regions not nested, no `/` next to a region).  Second part: `run_inv_full` — every
+program without `set ign`, any nesting depth of guarded regions, `/` anywhere; `run_inv_any` — the
+same without assuming that the run completes (on an exception the `guarded` frames are unwound and
+the reported state still satisfies the invariant).  `run_inv`/`run_inv_plain` are corollaries.
 -/
+/-- `decide +kernel` that fails fast: a FAILING `decide +kernel` on a model run builds its error
+message by re-evaluating the instance with the elaborator, which can take very large memory;
+`first` drops that lazy message. -/
+macro "kdec" : tactic =>
+  `(tactic| first
+    | decide +kernel
+    | fail "kdec: the kernel does not evaluate this closed proposition to `true`")
+
 namespace Pysnark
 
 /-! ## binary operators -/
@@ -390,6 +404,299 @@ theorem step_spec {inG : Bool} {st st' : St} {regs regs' : List Val} {frames fra
     all_goals exact (raise_ok.mp h).elim
 
 
+/-! # Second part: any nesting depth, `/` anywhere -/
+
+theorem Inv.init (p : Int) (bl res : Nat) : Inv (St.init p bl res) where
+  sat := fun c hc => by simp [St.init] at hc
+  consOk := fun c hc => by simp [St.init] at hc
+  oneNone := fun _ => rfl
+  oneSome := fun g hg => by simp [St.init] at hg
+  guardGood := fun g hg => by simp [St.init] at hg
+  ign := by simp [St.init]
+
+
+/-- binary operators in every mode -/
+theorem binopV_inv {s s' : St} {op : BinOp} {a b r : Val} (hinv : Inv s) (hP : PrimeP s)
+    (ha : GoodV s a) (hb : GoodV s b)
+    (h : binopV op a b s = .ok (r, s')) : s.le s' ∧ Frame s s' ∧ Inv s' ∧ GoodV s' r := by
+  cases op
+  case truediv => exact truedivV_inv hinv hP ha hb h
+  all_goals exact binopV_spec hinv hP (fun hop => by cases hop) ha hb h
+
+/-- the run invariant at any guard depth: the tracer invariant, every register coherent, and every
+saved `guarded` frame satisfying the guard part of the invariant (so that leaving the region, or
+unwinding it on an exception, re-establishes the invariant) -/
+structure RInvN (st : St) (regs : List Val) (frames : List GuardBak) : Prop where
+  inv : Inv st
+  prime : PrimeP st
+  regs : ∀ v ∈ regs, GoodV st v
+  frames : ∀ b ∈ frames, BakOk st b
+
+theorem RInvN.push {st st' : St} {regs : List Val} {frames : List GuardBak} {v : Val}
+    (hR : RInvN st regs frames) (h : st.le st' ∧ Frame st st' ∧ Inv st' ∧ GoodV st' v) :
+    RInvN st' (regs ++ [v]) frames := by
+  obtain ⟨le1, f1, inv1, g1⟩ := h
+  refine ⟨inv1, hR.prime.mono le1, ?_, fun b hb => (hR.frames b hb).mono le1⟩
+  intro w hw
+  rcases List.mem_append.mp hw with hw | hw
+  · exact (hR.regs w hw).mono le1
+  · simp only [List.mem_singleton] at hw; subst hw; exact g1
+
+theorem RInvN.push' {st st' : St} {regs : List Val} {frames : List GuardBak} {v : Val}
+    (hR : RInvN st regs frames) (hle : st.le st') (hinv : Inv st')
+    (hv : GoodV st' v) : RInvN st' (regs ++ [v]) frames := by
+  refine ⟨hinv, hR.prime.mono hle, ?_, fun b hb => (hR.frames b hb).mono hle⟩
+  intro w hw
+  rcases List.mem_append.mp hw with hw | hw
+  · exact (hR.regs w hw).mono hle
+  · simp only [List.mem_singleton] at hw; subst hw; exact hv
+
+/-- one instruction, at any guard depth -/
+theorem step_inv {st st' : St} {regs regs' : List Val} {frames frames' : List GuardBak}
+    {i : Instr} {v : Val} (hR : RInvN st regs frames) (hset : i.isSetIgn = false)
+    (hlit : ∀ w, i = .lit w → ∀ s, GoodV s w)
+    (h : step regs frames i st = .ok ((v, regs', frames'), st')) :
+    RInvN st' (regs' ++ [v]) frames' := by
+  have hinv := hR.inv
+  have hP := hR.prime
+  have hregs := hR.regs
+  cases i
+  case lit w =>
+    unfold step at h; simp only at h
+    step_fin
+    exact hR.push (ret_spec hinv (hlit _ rfl _))
+  case mk k a =>
+    unfold step at h; simp only at h
+    obtain ⟨x, s1, h1, h⟩ := bind_ok.mp h
+    obtain ⟨rfl, hx⟩ := getReg_ok h1
+    obtain ⟨r, s2, h2, h⟩ := bind_ok.mp h
+    step_fin
+    exact hR.push (mkVal_spec hinv h2)
+  case wrapb a =>
+    unfold step at h; simp only at h
+    obtain ⟨x, s1, h1, h⟩ := bind_ok.mp h
+    obtain ⟨rfl, hx⟩ := getReg_ok h1
+    obtain ⟨r, s2, h2, h⟩ := bind_ok.mp h
+    step_fin
+    exact hR.push (wrapBool_spec hinv (hregs x hx) h2)
+  case wrapx a =>
+    unfold step at h; simp only at h
+    obtain ⟨x, s1, h1, h⟩ := bind_ok.mp h
+    obtain ⟨rfl, hx⟩ := getReg_ok h1
+    obtain ⟨r, s2, h2, h⟩ := bind_ok.mp h
+    step_fin
+    exact hR.push (wrapFxp_spec hinv (hregs x hx) h2)
+  case bin op a b =>
+    unfold step at h; simp only at h
+    obtain ⟨x, s1, h1, h⟩ := bind_ok.mp h
+    obtain ⟨rfl, hx⟩ := getReg_ok h1
+    obtain ⟨y, s1, h1', h⟩ := bind_ok.mp h
+    obtain ⟨rfl, hy⟩ := getReg_ok h1'
+    obtain ⟨r, s2, h2, h⟩ := bind_ok.mp h
+    step_fin
+    exact hR.push (binopV_inv hinv hP (hregs x hx) (hregs y hy) h2)
+  case un op a =>
+    unfold step at h; simp only at h
+    obtain ⟨x, s1, h1, h⟩ := bind_ok.mp h
+    obtain ⟨rfl, hx⟩ := getReg_ok h1
+    obtain ⟨r, s2, h2, h⟩ := bind_ok.mp h
+    step_fin
+    exact hR.push (unV_spec hinv (hregs x hx) h2)
+  case call m self args =>
+    unfold step at h; simp only at h
+    obtain ⟨x, s1, h1, h⟩ := bind_ok.mp h
+    obtain ⟨rfl, hx⟩ := getReg_ok h1
+    obtain ⟨as, s1, h1', h⟩ := bind_ok.mp h
+    obtain ⟨rfl, has⟩ := getRegs_ok h1'
+    obtain ⟨r, s2, h2, h⟩ := bind_ok.mp h
+    step_fin
+    exact hR.push (callMeth_spec hinv hP (hregs x hx) (fun w hw => hregs w (has w hw)) h2)
+  case ite c t f =>
+    unfold step at h; simp only at h
+    obtain ⟨cv, s1, h1, h⟩ := bind_ok.mp h
+    obtain ⟨rfl, hc⟩ := getReg_ok h1
+    obtain ⟨tv, s1, h1', h⟩ := bind_ok.mp h
+    obtain ⟨rfl, ht⟩ := getReg_ok h1'
+    obtain ⟨fv, s1, h1'', h⟩ := bind_ok.mp h
+    obtain ⟨rfl, hf⟩ := getReg_ok h1''
+    obtain ⟨r, s2, h2, h⟩ := bind_ok.mp h
+    step_fin
+    exact hR.push (ifThenElse_spec hinv (hregs _ hc) (hregs _ ht) (hregs _ hf) h2)
+  case list xs =>
+    unfold step at h; simp only at h
+    obtain ⟨vs, s1, h1, h⟩ := bind_ok.mp h
+    obtain ⟨rfl, hvs⟩ := getRegs_ok h1
+    step_fin
+    exact hR.push (ret_spec hinv (GoodV_list.mpr (fun w hw => hregs w (hvs w hw))))
+  case arr xs =>
+    unfold step at h; simp only at h
+    obtain ⟨vs, s1, h1, h⟩ := bind_ok.mp h
+    obtain ⟨rfl, hvs⟩ := getRegs_ok h1
+    step_fin
+    exact hR.push (ret_spec hinv (GoodV_list.mpr (fun w hw => hregs w (hvs w hw))))
+  case idx a k =>
+    unfold step at h; simp only at h
+    obtain ⟨x, s1, h1, h⟩ := bind_ok.mp h
+    obtain ⟨rfl, hx⟩ := getReg_ok h1
+    have hxg := hregs x hx
+    have key : ∀ xs : List Val, (∀ w ∈ xs, GoodV st w) →
+        (match pyIndex xs.length k with
+          | some j => match xs[j]? with
+            | some y => pure (y, regs, frames)
+            | Option.none => raise .index
+          | Option.none => raise .index : M (Val × List Val × List GuardBak)) st
+          = .ok ((v, regs', frames'), st') → RInvN st' (regs' ++ [v]) frames' := by
+      intro xs hxs h
+      cases hk : pyIndex xs.length k with
+      | none => simp only [hk] at h; exact (raise_ok.mp h).elim
+      | some j =>
+        simp only [hk] at h
+        cases hv : xs[j]? with
+        | none => simp only [hv] at h; exact (raise_ok.mp h).elim
+        | some y =>
+          simp only [hv] at h
+          step_fin
+          exact hR.push (ret_spec hinv (hxs _ (List.mem_of_getElem? hv)))
+    cases x
+    case list xs => exact key xs (GoodV_list.mp hxg) h
+    case tuple xs => exact key xs (GoodV_tuple.mp hxg) h
+    all_goals exact (raise_ok.mp h).elim
+  case genter c =>
+    unfold step at h; simp only at h
+    obtain ⟨cv, s1, h1, h⟩ := bind_ok.mp h
+    obtain ⟨rfl, hc⟩ := getReg_ok h1
+    obtain ⟨bak, s2, h2, h⟩ := bind_ok.mp h
+    step_fin
+    obtain ⟨le1, inv1, hb1⟩ := addGuard_inv hinv (hregs _ hc) h2
+    refine ⟨inv1, hP.mono le1, ?_, ?_⟩
+    · intro w hw
+      rcases List.mem_append.mp hw with hw | hw
+      · exact (hregs w hw).mono le1
+      · simp only [List.mem_singleton] at hw; subst hw; exact GoodV_none
+    · intro b hb
+      rcases List.mem_cons.mp hb with rfl | hb
+      · exact hb1
+      · exact (hR.frames b hb).mono le1
+  case gleave =>
+    unfold step at h; simp only at h
+    cases frames with
+    | nil => exact (raise_ok.mp h).elim
+    | cons bak rest =>
+      simp only at h
+      obtain ⟨u, s2, h2, h⟩ := bind_ok.mp h
+      step_fin
+      obtain ⟨le1, inv1⟩ := restoreGuard_inv hinv (hR.frames _ (List.mem_cons_self ..)) h2
+      refine ⟨inv1, hP.mono le1, ?_, ?_⟩
+      · intro w hw
+        rcases List.mem_append.mp hw with hw | hw
+        · exact (hregs w hw).mono le1
+        · simp only [List.mem_singleton] at hw; subst hw; exact GoodV_none
+      · intro b hb
+        exact (hR.frames b (List.mem_cons_of_mem _ hb)).mono le1
+  case setBl n =>
+    unfold step at h; simp only at h
+    obtain ⟨u, s2, h2, h⟩ := bind_ok.mp h
+    step_fin
+    unfold modifySt at h2
+    simp only [Except.ok.injEq, Prod.mk.injEq] at h2
+    obtain ⟨-, rfl⟩ := h2
+    exact hR.push' ⟨List.prefix_refl _, List.prefix_refl _, List.prefix_refl _, rfl⟩ (hinv.setBl n)
+      GoodV_none
+  case setRes n =>
+    unfold step at h; simp only at h
+    obtain ⟨u, s2, h2, h⟩ := bind_ok.mp h
+    step_fin
+    unfold modifySt at h2
+    simp only [Except.ok.injEq, Prod.mk.injEq] at h2
+    obtain ⟨-, rfl⟩ := h2
+    exact hR.push' ⟨List.prefix_refl _, List.prefix_refl _, List.prefix_refl _, rfl⟩ (hinv.setRes n)
+      GoodV_none
+  case setIgn b => simp [Instr.isSetIgn] at hset
+  case aget a k =>
+    unfold step at h; simp only at h
+    obtain ⟨av, s1, h1, h⟩ := bind_ok.mp h
+    obtain ⟨rfl, ha⟩ := getReg_ok h1
+    obtain ⟨iv, s1, h1', h⟩ := bind_ok.mp h
+    obtain ⟨rfl, hk⟩ := getReg_ok h1'
+    have hag := hregs _ ha
+    cases av
+    case list xs =>
+      simp only at h
+      obtain ⟨r, s2, h2, h⟩ := bind_ok.mp h
+      step_fin
+      exact hR.push (arrayGet_spec hinv hP (GoodV_list.mp hag) (hregs _ hk) h2)
+    all_goals exact (raise_ok.mp h).elim
+  case aset a k w =>
+    unfold step at h; simp only at h
+    obtain ⟨av, s1, h1, h⟩ := bind_ok.mp h
+    obtain ⟨rfl, ha⟩ := getReg_ok h1
+    obtain ⟨iv, s1, h1', h⟩ := bind_ok.mp h
+    obtain ⟨rfl, hk⟩ := getReg_ok h1'
+    obtain ⟨vv, s1, h1'', h⟩ := bind_ok.mp h
+    obtain ⟨rfl, hw⟩ := getReg_ok h1''
+    have hag := hregs _ ha
+    cases av
+    case list xs =>
+      simp only at h
+      obtain ⟨xs', s2, h2, h⟩ := bind_ok.mp h
+      step_fin
+      obtain ⟨le1, f1, inv1, g1⟩ := arraySet_spec hinv hP (GoodV_list.mp hag) (hregs _ hk) (hregs _ hw) h2
+      refine ⟨inv1, hP.mono le1, ?_, fun b hb => (hR.frames b hb).mono le1⟩
+      intro z hz
+      rcases List.mem_append.mp hz with hz | hz
+      · rcases List.mem_or_eq_of_mem_set hz with hz | rfl
+        · exact (hregs z hz).mono le1
+        · exact GoodV_list.mpr g1
+      · simp only [List.mem_singleton] at hz; subst hz; exact GoodV_none
+    all_goals exact (raise_ok.mp h).elim
+
+
+
+/-- the whole run, completed or not: on an exception the frames are unwound -/
+theorem runAux_inv_any : ∀ (is : List Instr) (k : Nat) (regs : List Val) (frames : List GuardBak) (st : St),
+    RInvN st regs frames →
+    (∀ i ∈ is, i.isSetIgn = false) →
+    (∀ w, Instr.lit w ∈ is → ∀ s, GoodV s w) →
+    Inv (runAux is k regs frames st).st ∧ ∀ v ∈ (runAux is k regs frames st).regs, GoodV (runAux is k regs frames st).st v
+  | [], k, regs, frames, st, hR, _, _ => by
+    unfold runAux
+    exact ⟨hR.inv, hR.regs⟩
+  | i :: is, k, regs, frames, st, hR, hset, hlit => by
+    unfold runAux
+    cases hstep : step regs frames i st with
+    | error e =>
+      simp only
+      obtain ⟨le1, inv1⟩ := unwind_inv frames st hR.inv hR.frames
+      exact ⟨inv1, fun v hv => (hR.regs v hv).mono le1⟩
+    | ok r =>
+      obtain ⟨⟨v, regs', frames'⟩, st'⟩ := r
+      simp only
+      have hmem : i ∈ i :: is := List.mem_cons_self ..
+      have hR' := step_inv hR (hset i hmem) (fun w hw => hlit w (hw ▸ hmem)) hstep
+      exact runAux_inv_any is (k+1) _ _ _ hR'
+        (fun j hj => hset j (List.mem_cons_of_mem _ hj))
+        (fun w hw => hlit w (List.mem_cons_of_mem _ hw))
+
+/-- **Main theorem, full strength, no assumption that the run completes.**  Every program without
+`set ign`: guarded regions nested to any depth with any guard values, `/` anywhere.  When the run
+raises, the reported state is the state before the failing instruction with the `guarded` frames
+unwound, and it satisfies the invariant too. -/
+theorem run_inv_any (p : Nat) (hp : p.Prime) (bl res : Nat) (prog : List Instr) (hset : NoSetIgn prog)
+    (hlit : ∀ w, Instr.lit w ∈ prog → ∀ s, GoodV s w) :
+    Inv (run (St.init p bl res) prog).st ∧
+      ∀ v ∈ (run (St.init p bl res) prog).regs, GoodV (run (St.init p bl res) prog).st v := by
+  unfold run
+  refine runAux_inv_any prog 0 [] [] _ ?_ hset hlit
+  exact ⟨Inv.init _ _ _, ⟨p, hp, rfl⟩, by simp, by simp⟩
+
+/-- **Main theorem, full strength** (in the shape of `run_inv`) -/
+theorem run_inv_full (p : Nat) (hp : p.Prime) (bl res : Nat) (prog : List Instr) (hset : NoSetIgn prog)
+    (hlit : ∀ w, Instr.lit w ∈ prog → ∀ s, GoodV s w)
+    (out : Out) (hout : run (St.init p bl res) prog = out) (_herr : out.err = none) :
+    Inv out.st ∧ ∀ v ∈ out.regs, GoodV out.st v := by
+  subst hout
+  exact run_inv_any p hp bl res prog hset hlit
+
 theorem nextG_true {inG : Bool} {i : Instr} (h : nextG inG i = true) : inG = true ∨ i.isGenter = true := by
   cases i <;> simp_all [nextG, Instr.isGenter]
 
@@ -437,27 +744,13 @@ theorem runAux_inv : ∀ (is : List Instr) (k : Nat) (regs : List Val) (frames :
         · exact Or.inr ⟨i, hmem, h1⟩
       · exact Or.inr ⟨j', List.mem_cons_of_mem _ hj', hg'⟩
 
-theorem Inv.init (p : Int) (bl res : Nat) : Inv (St.init p bl res) where
-  sat := fun c hc => by simp [St.init] at hc
-  consOk := fun c hc => by simp [St.init] at hc
-  oneNone := fun _ => rfl
-  oneSome := fun g hg => by simp [St.init] at hg
-  guardGood := fun g hg => by simp [St.init] at hg
-  ign := by simp [St.init]
-
-/-- **Main theorem.**  `hlit` (literals contain no incoherent secret) is needed in addition to
-`Fragment`: see `run_inv_needs_hlit`. -/
+/-- The first form of the main theorem (for `Fragment`), now a corollary of `run_inv_full`.
+`hlit` (literals contain no incoherent secret) is needed: see `run_inv_needs_hlit`. -/
 theorem run_inv (p : Nat) (hp : p.Prime) (bl res : Nat) (prog : List Instr) (hfrag : Fragment prog)
     (hlit : ∀ w, Instr.lit w ∈ prog → ∀ s, GoodV s w)
     (out : Out) (hout : run (St.init p bl res) prog = out) (herr : out.err = none) :
-    Inv out.st ∧ ∀ v ∈ out.regs, GoodV out.st v := by
-  obtain ⟨hset, hflat, hdiv⟩ := hfrag
-  unfold run at hout
-  refine runAux_inv prog 0 [] [] _ false ?_ hset hlit hflat ?_ out hout herr
-  · exact ⟨Inv.init _ _ _, ⟨p, hp, rfl⟩, by simp, rfl, fun _ => rfl⟩
-  · rintro (h | h)
-    · cases h
-    · exact hdiv h
+    Inv out.st ∧ ∀ v ∈ out.regs, GoodV out.st v :=
+  run_inv_full p hp bl res prog hfrag.1 hlit out hout herr
 
 /-- Without the hypothesis on literals the statement is false: the one-instruction program
 `lit (LinComb(1, {}))` puts an incoherent value (value 1, empty wire expression) in a register. -/
@@ -505,5 +798,18 @@ theorem run_inv_plain (p : Nat) (hp : p.Prime) (bl res : Nat) (prog : List Instr
     Inv out.st ∧ ∀ v ∈ out.regs, GoodV out.st v :=
   run_inv p hp bl res prog hfrag (fun w hw _ => GoodV_of_noSecret w (hlit w hw)) out hout herr
 
+/-- `run_inv_full` for programs whose literals are plain Python values -/
+theorem run_inv_plain_full (p : Nat) (hp : p.Prime) (bl res : Nat) (prog : List Instr) (hset : NoSetIgn prog)
+    (hlit : ∀ w, Instr.lit w ∈ prog → w.noSecret = true)
+    (out : Out) (hout : run (St.init p bl res) prog = out) (herr : out.err = none) :
+    Inv out.st ∧ ∀ v ∈ out.regs, GoodV out.st v :=
+  run_inv_full p hp bl res prog hset (fun w hw _ => GoodV_of_noSecret w (hlit w hw)) out hout herr
+
+/-- the same without assuming that the run completes -/
+theorem run_inv_plain_any (p : Nat) (hp : p.Prime) (bl res : Nat) (prog : List Instr) (hset : NoSetIgn prog)
+    (hlit : ∀ w, Instr.lit w ∈ prog → w.noSecret = true) :
+    Inv (run (St.init p bl res) prog).st ∧
+      ∀ v ∈ (run (St.init p bl res) prog).regs, GoodV (run (St.init p bl res) prog).st v :=
+  run_inv_any p hp bl res prog hset (fun w hw _ => GoodV_of_noSecret w (hlit w hw))
 
 end Pysnark
